@@ -1,8 +1,8 @@
 SPECIFICATION Spec
 CONSTANTS
-  Shapes <- ShapesQuick
-  MaxFaults = 2
-  MaxBurst = 0
+  Shapes <- ShapesBurst
+  MaxFaults = 1
+  MaxBurst = 7
 INVARIANT BImpliesA
 INVARIANT Settled
 CHECK_DEADLOCK FALSE
